@@ -278,7 +278,9 @@ var variants = []variant{
 	{"unknown-type-oversize", func(T uint32) [][]byte { return one(h2peer.RawFrame(0xfa, 0, T, zeros(16385))) }},
 }
 
-var states = []string{"idle", "open", "half-closed-remote", "closed-end-stream", "closed-client-rst", "closed-server-rst", "reset-in-flight"}
+// the seven states of the property text, plus the one the calibration showed to
+// matter: a stream "opened" by a HEADERS block the server rejected as malformed
+var states = []string{"idle", "open", "half-closed-remote", "closed-end-stream", "closed-client-rst", "closed-server-rst", "reset-in-flight", "rejected-malformed-headers"}
 
 func barrier() []byte { return h2peer.RawFrame(0xbb, 0, 0, []byte("barrier")) }
 
@@ -327,6 +329,8 @@ func runCell(limit uint32, state string, vr variant, others int, st *stats) *con
 		case "closed-server-rst":
 			c.exec(frameStep("open", postOpen(T, 5, "")))
 			c.exec(frameStep("draw-stream-error", h2peer.RawFrame(8, 0, T, u32(0))))
+		case "rejected-malformed-headers":
+			c.exec(frameStep("malformed-open", h2peer.RawFrame(1, fEH, T, block(append(reqFields(T, "POST", 5, "")[:4], hf("X-Upper", "1"), xsid(T))))))
 		case "reset-in-flight":
 			c.exec(frameStep("open", postOpen(T, 5, "")))
 			c.exec(Step{Op: "hold"})
